@@ -289,6 +289,104 @@ func timedScenario(rng *rand.Rand, out func(map[string]interface{})) {
 // blocks on a gate are submitted back to back (the completion of the first races with the submission of the
 // second), then Wait() is called. Wait must not return before the blocked function has ended - whatever the
 // race did to the bookkeeping. Each round is judged on its own (`new` event), the limiter is quiescent between rounds.
+// reuseScenario: one limiter over several busy periods. A period ends either with Wait() (judged), or with a timed
+// Wait that expires while everything is still gated, after which the limiter drains with nobody waiting. The panic
+// handler may be replaced between periods (by the submitting goroutine): later submissions must report to the new
+// one. After a period that drained unobserved the driver pauses before it submits again, so that the goroutine an
+// expired timed Wait leaves parked in WaitGroup.Wait has returned (reusing a WaitGroup before that is a misuse).
+func reuseScenario(rng *rand.Rand, out func(map[string]interface{})) {
+	r := &run{}
+	n := 1 + rng.Intn(3)
+	r.log(map[string]interface{}{"ev": "new", "n": n, "scenario": map[string]interface{}{"reuse": true, "limit": n}})
+	l := goz.NewLimiter(n)
+	h := 0
+	setHandler := func() {
+		h++
+		id := h
+		l.SetPanicHandler(func(v any) { r.log(map[string]interface{}{"ev": "handler", "v": v, "h": id}) })
+		r.log(map[string]interface{}{"ev": "sethandler", "h": id})
+	}
+	if rng.Intn(3) != 0 {
+		setHandler()
+	}
+	next, total := 1, 0
+	var ended int32
+	ok := true
+	periods := 2 + rng.Intn(3)
+	for p := 0; p < periods && ok; p++ {
+		if h == 0 || (p > 0 && rng.Intn(2) == 0) {
+			setHandler() // (also: a handler configured only after earlier functions were submitted)
+		}
+		count := 1 + rng.Intn(n)
+		gate := make(chan struct{})
+		var entered int32
+		for j := 0; j < count; j++ {
+			id := next
+			next++
+			total++
+			pan := rng.Intn(3) == 0
+			r.log(map[string]interface{}{"ev": "gocall", "i": id})
+			l.Go(func() {
+				r.log(map[string]interface{}{"ev": "enter", "i": id})
+				atomic.AddInt32(&entered, 1)
+				<-gate
+				r.log(map[string]interface{}{"ev": "exit", "i": id, "panic": pan})
+				atomic.AddInt32(&ended, 1)
+				if pan {
+					panic(id)
+				}
+			})
+			r.log(map[string]interface{}{"ev": "goret", "i": id})
+		}
+		if !await(func() bool { return int(atomic.LoadInt32(&entered)) == count }) {
+			stuckOnce = true
+			r.log(map[string]interface{}{"ev": "stuck", "what": "submitted functions did not start although slots were free"})
+			close(gate)
+			ok = false
+			break
+		}
+		if p == periods-1 || rng.Intn(2) == 0 {
+			waitDone := make(chan struct{})
+			go func() {
+				r.log(map[string]interface{}{"ev": "waitcall"})
+				l.Wait()
+				r.log(map[string]interface{}{"ev": "waitret"})
+				close(waitDone)
+			}()
+			select { // give a Wait that is going to return early the time to do so (stimulus only)
+			case <-waitDone:
+			case <-time.After(300 * time.Microsecond):
+			}
+			close(gate)
+			select {
+			case <-waitDone:
+			case <-time.After(patience):
+				stuckOnce = true
+				r.log(map[string]interface{}{"ev": "stuck", "what": "Wait did not return although every function ended"})
+				ok = false
+			}
+		} else {
+			l.Wait(time.Duration(200+rng.Intn(800)) * time.Microsecond) // expires: everything is still gated
+			close(gate)
+			if !await(func() bool { return int(atomic.LoadInt32(&ended)) == total }) {
+				stuckOnce = true
+				r.log(map[string]interface{}{"ev": "stuck", "what": "released functions did not end"})
+				ok = false
+			}
+			time.Sleep(20 * time.Millisecond)
+		}
+	}
+	if ok {
+		r.log(map[string]interface{}{"ev": "end", "submitted": total})
+	}
+	r.mu.Lock()
+	sort.Slice(r.events, func(a, b int) bool { return r.events[a].at < r.events[b].at })
+	for _, e := range r.events {
+		out(e.m)
+	}
+	r.mu.Unlock()
+}
+
 func churnScenario(rng *rand.Rand, k int, out func(map[string]interface{})) {
 	n := 1 + rng.Intn(3)
 	l := goz.NewLimiter(n)
@@ -398,6 +496,15 @@ func main() {
 		}
 		if s%40 == 7 {
 			churnScenario(rng, churnRounds, func(m map[string]interface{}) {
+				b, _ := json.Marshal(m)
+				f.Write(b)
+				f.Write([]byte("\n"))
+				events++
+			})
+			continue
+		}
+		if s%5 == 2 {
+			reuseScenario(rng, func(m map[string]interface{}) {
 				b, _ := json.Marshal(m)
 				f.Write(b)
 				f.Write([]byte("\n"))
